@@ -102,6 +102,58 @@ def RmT.okConsumed {β : Type} : RmT β → Option Nat
   | .done o => (match o.res with | .ok _ => some o.consumed | .error _ => none)
   | .timedOut => none
 
+/-! ## what the reader loop tells the `Tracker` (`conn.rs`: `inc_received` / `inc_quiet_received` per `codec.read()`) -/
+
+/-- the `(bytes_read, quiet)` entries of the reader loop, one per `codec.read()`, in order; `quiet` decides
+from the result of the read (attachment chunk, header batch with more to come) -/
+def runCounts {B H σ : Type} (env : Env B H) (ops : SockOps σ) (attach : Message B H → Option Nat)
+    (quiet : Res B H → Bool) : Nat → Codec H → σ → List (Nat × Bool)
+  | 0, _, _ => []
+  | fuel+1, c, s =>
+    let o := read env ops c s
+    match o.res with
+    | .msg m =>
+      match nextCodec attach o.codec m with
+      | none => [(o.bytesRead, quiet o.res)]
+      | some c' => (o.bytesRead, quiet o.res) :: runCounts env ops attach quiet fuel c' o.sock
+    | _ => [(o.bytesRead, quiet o.res)]
+
+/-! ## the handshake writes under `SHAKE_WRITE_TIMEOUT` / `HAND_WRITE_TIMEOUT` -/
+
+def shakeWriteTimeout : Nat := GV.Gen.CodecDispatch.SHAKE_WRITE_TIMEOUT_MS
+def handWriteTimeout : Nat := GV.Gen.CodecDispatch.HAND_WRITE_TIMEOUT_MS
+
+/-- `write_all` of a (small) handshake frame under `set_write_timeout(T)` on a socket that accepts nothing
+for `stall` ms (`none`: never - the remote does not read and every buffer on the way is full): does it
+complete? -/
+def writeCompletes (T : Nat) (stall : Option Nat) : Bool :=
+  match stall with
+  | none => false
+  | some w => decide (w < T)
+
+inductive HsOut
+  | ok (version : Nat)
+  | refused (e : HsErr)
+  /-- `Error::Connection(WouldBlock / TimedOut)` out of `write_message` -/
+  | writeTimeout
+deriving DecidableEq, Repr
+
+/-- `Handshake::accept` from the decision on: a refusal returns before anything is written; otherwise the
+Shake is written under `SHAKE_WRITE_TIMEOUT` and only then the `PeerInfo` returned -/
+def acceptWithWrite (stall : Option Nat) (decision : Except HsErr Nat) : HsOut :=
+  match decision with
+  | .error e => .refused e
+  | .ok v => if writeCompletes shakeWriteTimeout stall then .ok v else .writeTimeout
+
+/-- `Handshake::initiate`: the Hand is written FIRST (under `HAND_WRITE_TIMEOUT`), the Shake read and judged
+afterwards -/
+def initiateWithWrite (stall : Option Nat) (decision : Except HsErr Nat) : HsOut :=
+  if writeCompletes handWriteTimeout stall then
+    match decision with
+    | .error e => .refused e
+    | .ok v => .ok v
+  else .writeTimeout
+
 /-- the read timeout `Handshake::accept` installs before reading the Hand (regenerated) -/
 def handReadTimeout : Nat := GV.Gen.CodecDispatch.HAND_READ_TIMEOUT_MS
 /-- the read timeout `Handshake::initiate` installs before reading the Shake (regenerated) -/
